@@ -286,7 +286,7 @@ theorem recv_exact_P (c0 max : Nat) (m rest : Bytes) (sched : List ReadEv) (P : 
     (hm : Framed m) (hmax : max = 0 ∨ m.length ≤ max) (hp : Progressive sched)
     (he : FrameSched m.length P 0 sched) :
     ∃ pre sched' cap', sched = pre ++ sched' ∧ P sched' ∧
-      recv c0 max { wire := m ++ rest, sched := sched }
+      recvC c0 max { wire := m ++ rest, sched := sched }
         = { res := .msg m, t := { wire := rest, sched := sched' }, cap := cap' } := by
   have hne : m ≠ [] := by
     intro h; have := hm.1; rw [h] at this; simp at this
@@ -299,7 +299,7 @@ theorem recv_exact_gen (c0 max : Nat) (m rest : Bytes) (sched : List ReadEv)
     (hm : Framed m) (hmax : max = 0 ∨ m.length ≤ max) (hp : Progressive sched)
     (he : ErrOnlyAtEnd m.length 0 sched) :
     ∃ pre sched' cap', sched = pre ++ sched' ∧
-      recv c0 max { wire := m ++ rest, sched := sched }
+      recvC c0 max { wire := m ++ rest, sched := sched }
         = { res := .msg m, t := { wire := rest, sched := sched' }, cap := cap' } := by
   obtain ⟨pre, s', c', hs, _, hr⟩ := recv_exact_P c0 max m rest sched _ hm hmax hp he
   exact ⟨pre, s', c', hs, hr⟩
